@@ -43,7 +43,7 @@ type op struct {
 func history(kind string) []op {
 	if kind == "edge" {
 		const MiB = 1 << 20
-		return []op{{0, 0, MiB - 125 - 1}, {1, 0, MiB - 125}, {2, 0, MiB - 125 + 1}, {0, 1, MiB - 191}, {1, 1, MiB - 191 - 1}, {3, 0, 10}, {2, 1, 7}}
+		return []op{{0, 0, MiB - 125 - 1}, {1, 0, MiB - 125}, {2, 0, MiB - 125 + 1}, {0, 1, MiB - 191}, {1, 1, MiB - 191 - 1}, {3, 0, 10}, {2, 1, 7}, {100, 0, 11}, {103, 0, 12}}
 	}
 	bulk := kind == "bulk"
 	h := []op{{0, 0, 1}, {1, 0, 900}, {2, 0, 4096}, {0, 1, 1}, {3, 0, 64}, {1, 1, 900}, {4, 0, 2000}, {0, 2, 5}}
@@ -56,8 +56,9 @@ func history(kind string) []op {
 }
 
 func mkVAA(o op) *vaa.VAA {
-	v := &vaa.VAA{Version: 1, GuardianSetIndex: uint32(o.Ver), Timestamp: time.Unix(1700000000, 0), Sequence: uint64(o.ID), EmitterChain: 255, TargetChain: 2, ConsistencyLevel: 1}
-	v.EmitterAddress[31] = 0x42
+	vid := idOf(o.ID)
+	v := &vaa.VAA{Version: 1, GuardianSetIndex: uint32(o.Ver), Timestamp: time.Unix(1700000000, 0), Sequence: vid.Sequence, EmitterChain: vid.EmitterChain, TargetChain: vid.TargetChain, ConsistencyLevel: 1}
+	v.EmitterAddress = vid.EmitterAddress
 	v.Payload = make([]byte, o.Size)
 	for i := range v.Payload {
 		v.Payload[i] = byte(i*7 + o.ID)
@@ -75,6 +76,11 @@ func mkVAA(o op) *vaa.VAA {
 func idOf(i int) vaa.VAAID {
 	var a vaa.Address
 	a[31] = 0x42
+	if i >= 100 {
+		// ids 100+k: the same emitter and sequence k, target chain 258 = 2 + 256 (testnet chain ids are above 255:
+		// another identifier, another key, whatever the low byte)
+		return vaa.VAAID{EmitterChain: 255, EmitterAddress: a, TargetChain: 258, Sequence: uint64(i - 100)}
+	}
 	return vaa.VAAID{EmitterChain: 255, EmitterAddress: a, TargetChain: 2, Sequence: uint64(i)}
 }
 
